@@ -8,7 +8,7 @@ import math, random, re
 from gen import ast as A
 from vlib import driver_run, esc_field, harness_run, sexp_parse, sexp_str, strip_tags
 
-THM_MODULES = ["SslModel.Thm.C20"]
+THM_MODULES = ["SslModel.Thm.C20", "SslModel.Thm.C20Values"]
 TRANSLATE_PARTS = []
 MIN, MAX = -2**63, 2**63 - 1
 CHARS = ['a', 'Z', '0', '7', ' ', '"', '\\', "'", '/', '{', '}', '\n', '\t', '\r', '\x00', '\x01', '\x07', '\x08', '\x0c', '\x1b', '\x1f',
